@@ -787,6 +787,17 @@ func c05MGenHostMix(r *vfRand) c05MIn {
 		}
 	}
 	in.Rules = []c05MRule{first, owner}
+	if internal == "internal.example.com" && r.Chance(1, 2) {
+		// other spellings of the host are routed by a case-insensitive regexp rule whose path
+		// filter blocks X; the exact-host rule owns an unfiltered copy of the path.  The
+		// requests below then vary the letter case of the Host header.
+		in.Rules = []c05MRule{
+			{Host: internal, Paths: []c05MPath{{Path: "/a", Methods: []string{"GET", "POST"}, Backend: "A"}, {Prefix: "/p", Backend: "B"}}},
+			{HostRegexp: `(?i)^internal\.example\.com(:\d+)?$`, Paths: []c05MPath{{Path: "/a", Filter: blockX, Backend: "C"}, {Prefix: "/p", Filter: blockX, Backend: "D"}}},
+			owner,
+		}
+		return c05MHostCase(r, in, x, y)
+	}
 	intHost := internal
 	if strings.Contains(internal, ":") {
 		intHost = "[" + internal + "]" + r.PickStr(":8080", ":80")
@@ -816,6 +827,36 @@ func c05MGenHostMix(r *vfRand) c05MIn {
 		default:
 			in.Reqs = append(in.Reqs, yb, yb, xa, xa, xa, xb, xb)
 		}
+	}
+	return in
+}
+
+// c05MHostCase: an allowed client warms the cache with the configured spelling of the
+// host, the blocked client then uses another letter case (and vice versa).
+func c05MHostCase(r *vfRand, in c05MIn, x, y string) c05MIn {
+	spell := []string{"internal.example.com", "INTERNAL.example.com", "Internal.Example.Com"}
+	mk := func(host, ip, m, pth string) c05MReq {
+		return c05MReq{Host: host, Method: m, Path: pth, Remote: ip + ":5123"}
+	}
+	if strings.Contains(x, ":") {
+		x = "52.10.77.3"
+		for i := range in.Rules {
+			for j := range in.Rules[i].Paths {
+				if f := in.Rules[i].Paths[j].Filter; f != nil {
+					in.Rules[i].Paths[j].Filter = &c05MFilter{Def: false, Allow: []string{}, Block: []string{x}}
+				}
+			}
+		}
+	}
+	targets := [][2]string{{"GET", "/a"}, {"PUT", "/a"}, {"GET", "/p/x"}, {"GET", "/zz"}}
+	nb := r.Range(2, 4)
+	for b := 0; b < nb; b++ {
+		t := targets[r.Intn(len(targets))]
+		h1, h2 := spell[0], spell[1+r.Intn(2)]
+		if r.Chance(1, 3) {
+			h1, h2 = h2, h1
+		}
+		in.Reqs = append(in.Reqs, mk(h1, y, t[0], t[1]), mk(h1, y, t[0], t[1]), mk(h2, x, t[0], t[1]), mk(h1, x, t[0], t[1]), mk(h2, y, t[0], t[1]))
 	}
 	return in
 }
